@@ -94,6 +94,13 @@ def stepping_oracle(path):
     return data
 
 
+def short_rows(lst, t):
+    """Rows of table t that the listing's short result sets print: {row index: line in the short table}."""
+    if getattr(lst, "simulator", "") != "AUTOUGH2" or not any(lst._short):
+        return {}
+    return dict(getattr(lst, "short_indices", {}).get(CODE[t].upper() + "SHORT", {}))
+
+
 def pick_items(lst, tables, rng, rich):
     items = []
     for t in tables:
@@ -113,6 +120,11 @@ def pick_items(lst, tables, rng, rich):
                 # one history call serves any number of rows: take many where the table is printed out of sequence (chosen
                 # uniformly, not through row_line, which is itself under test)
                 rows = sorted(set(rows + (rng.sample(range(nrows), min(nrows, 200)) if len(odd) > 50 else rng.sample(odd, min(len(odd), 6 if rich else 3)))))
+        # AUTOUGH2 short output: the rows printed in the short table as well - the one printed first, the last, another
+        si = short_rows(lst, t)
+        if si:
+            by_line = sorted(si, key=lambda r_: si[r_])
+            rows = sorted(set(rows + [by_line[0], by_line[-1], rng.choice(by_line)]))
         cols = [tab.column_name[0], tab.column_name[-1], rng.choice(tab.column_name)]
         for r in rows:
             mode = rng.choice(["name", "name", "int", "rev"])
@@ -163,9 +175,10 @@ def check_history(rep, lst, fname, oracle, tables, items, short, start, rec):
         vals = np.asarray(vals, dtype=float)
         colidx = lst._table[it["table"]]._col[it["col"]]
         expect = np.array([it["sign"] * oracle[i][it["table"]][it["row"], colidx] for i in range(nfull)])
-        if len(vals) == nfull:
+        in_short = short and it["row"] in short_rows(lst, it["table"])
+        if len(vals) == nfull and (not in_short or nfull == len(lst._pos)):
             sub, tt = vals, lst.fulltimes
-        elif len(vals) == len(lst._pos):
+        elif len(vals) == len(lst._pos) and (in_short or nfull == len(lst._pos)):
             sub, tt = vals[full_positions], lst.times
         else:
             detail["item"] = [it["table"], it["row"], it["col"]]
